@@ -202,8 +202,140 @@ def case_history(B, cfg):
                 observe(B, c, 'kept copy'), snap_c)
 
 
-def jobs(tier):
+# ------------------------------------------------- reduced (fixed parameters)
+ROPS = ['F0', 'F1', 'G0', 'R0', 'R1', 'SW', 'RA', 'S+', 'S-', 'C', 'Co']
+
+
+def _dosed(B):
+    m = fresh('one_compartment_pk_model')
+    m.set_administration('central', direct=True)
+    m.set_dosing_regimen(B.var('dose1'), start=B.var('start1'))
+    return m
+
+
+def apply_rop(B, r, op, st, names):
+    fixed = st.setdefault('fixed', {})
+    if op in ('F0', 'F1', 'G0'):
+        i = int(op[1])
+        v = B.var('fixval_%s' % op)
+        r.fix_parameters({names[i]: v})
+        fixed[i] = v
+    elif op in ('R0', 'R1'):
+        i = int(op[1])
+        r.fix_parameters({names[i]: None})
+        fixed.pop(i, None)
+    elif op == 'SW':
+        # one call that releases parameter 0 and fixes parameter 1
+        v = B.var('fixval_SW')
+        r.fix_parameters({names[0]: None, names[1]: v})
+        fixed.pop(0, None)
+        fixed[1] = v
+    elif op == 'RA':
+        r.fix_parameters({n_: None for n_ in names})
+        fixed.clear()
+    elif op == 'S+':
+        r.enable_sensitivities(True)
+        st['sens'] = True
+    elif op == 'S-':
+        r.enable_sensitivities(False)
+        st['sens'] = False
+    elif op == 'C':
+        r = r.copy()
+    return r
+
+
+def observe_reduced(B, r, tag, names, free_hint=None):
+    obs = {}
+    obs['parameters'] = tuple(r.parameters())
+    obs['n_parameters'] = r.n_parameters()
+    obs['outputs'] = tuple(r.outputs())
+    obs['has_sensitivities'] = bool(r.has_sensitivities())
+    B.fact('%s: n_parameters = len(parameters())' % tag,
+           obs['n_parameters'] == len(obs['parameters']))
+    # the same symbolic value for a parameter whatever its position
+    p = [B.var('p_' + n_.replace('.', '_')) for n_ in obs['parameters']]
+    try:
+        out = r.simulate(ps.arr(B, p), TIMES)
+    except Exception as e:
+        B.fact('%s: no-exception:simulate' % tag, False, repr(e))
+        obs['sim'] = None
+        return obs
+    if r.has_sensitivities():
+        y, sn = out
+        obs['sens_shape'] = tuple(np.shape(sn))
+        obs['sens'] = [x for x in np.asarray(sn, dtype=object).ravel()]
+    else:
+        y = out
+        obs['sens_shape'] = None
+        obs['sens'] = []
+    obs['sim_shape'] = tuple(np.shape(y))
+    obs['sim'] = [x for x in np.asarray(y, dtype=object).ravel()]
+    return obs
+
+
+def case_reduced(B, cfg):
+    """fix / re-fix / release / swap / sensitivities / copy on a
+    ReducedMechanisticModel over a dosed PKPD model"""
+    ops = cfg['ops']
+    r = chi.ReducedMechanisticModel(_dosed(B))
+    names = r.parameters()
+    st = {}
+    keep = []
+    for op in ops:
+        if op == 'Co':
+            c = r.copy()
+            keep.append((c, observe_reduced(B, c, 'copy at copying', names),
+                         observe_reduced(B, r, 'original at copying', names)))
+            continue
+        try:
+            r = apply_rop(B, r, op, st, names)
+        except Exception as e:
+            B.fact('no-exception:%s' % op, False, repr(e))
+            return
+    got = observe_reduced(B, r, 'after history', names)
+    ref = chi.ReducedMechanisticModel(_dosed(B))
+    net = {names[i]: v for i, v in st.get('fixed', {}).items()}
+    if net:
+        ref.fix_parameters(net)
+    if st.get('sens'):
+        ref.enable_sensitivities(True)
+    want = observe_reduced(B, ref, 'fresh reduced model with net config',
+                           names)
+    B.fact('history = net configuration: free names in original order',
+           list(got['parameters']) == [n_ for i, n_ in enumerate(names)
+                                       if i not in st.get('fixed', {})],
+           repr(got['parameters']))
+    B.fact('history = net configuration: has_sensitivities',
+           got['has_sensitivities'] == bool(st.get('sens')),
+           repr(got['has_sensitivities']))
+    compare(B, 'reduced: history = net configuration', got, want)
+    for c, snap_c, snap_o in keep:
+        compare(B, 'reduced: copy = original at the moment of copying',
+                snap_c, snap_o)
+        compare(B, 'reduced: copy unaffected by later operations',
+                observe_reduced(B, c, 'kept copy', names), snap_c)
+
+
+def reduced_jobs(tier):
     out = []
+    q = tier == 'quick'
+    seqs = []
+    for n in (1, 2):
+        seqs += [list(o) for o in itertools.product(ROPS, repeat=n)]
+    three = [list(o) for o in itertools.product(ROPS, repeat=3)]
+    if q:
+        three = [o for o in three if o[0] in ('F0', 'S+') and
+                 ('Co' in o or 'C' in o or 'SW' in o or 'RA' in o)]
+    seqs += three
+    seqs += [['F0', 'S+', 'Co', 'F1', 'S-'], ['S+', 'F0', 'C', 'SW', 'RA'],
+             ['F0', 'F1', 'Co', 'G0', 'R1'], ['F0', 'Co', 'S+', 'SW', 'C']]
+    for o in seqs:
+        out.append(('reduced', 'case_reduced', dict(ops=o), FACADE))
+    return out
+
+
+def jobs(tier):
+    out = reduced_jobs(tier)
     q = tier == 'quick'
     alphabet = OPS + ['Co']
     L = 2 if q else 3
@@ -253,11 +385,16 @@ BOUNDS = dict(
           'S+, C}; all 196 four-step histories (administration, regimen, two '
           'of {S+, S-, C, Co, O1, RP, D1}); '
           'operations over {Ad, Ai, D1, D2, O1, O2, RP, RO, S+, S-, C, Co} '
-          'plus 5 targeted histories of length 4-6',
-    thorough='all histories of <= 3 operations on the one-compartment model '
+          'plus 5 targeted histories of length 4-6; ReducedMechanisticModel '
+          'over the dosed model: all histories of <= 2 operations over {fix '
+          'p0, fix p1, re-fix p0, release p0, release p1, swap in one call, '
+          'release all, S+, S-, continue with a copy, keep a copy}, the '
+          '3-step ones that start with fix p0 / S+ and contain a copy, swap '
+          'or release-all, 4 targeted 5-step histories',
+    thorough='all 1331 3-step histories on the reduced model; '
+             'all histories of <= 3 operations on the one-compartment model '
              '(1884) and a quarter of them on the erlotinib PKPD model',
-    outside='longer histories; fix_parameters through '
-            'ReducedMechanisticModel (C08/C09); the integrator')
+    outside='longer histories; the integrator')
 TRUSTED = ['myokit stub contract', 'reference = the same chi code on a fresh '
            'model in canonical order (administration, regimen, outputs, '
            'renaming, sensitivities)', 'z3']
